@@ -1,1 +1,55 @@
 // Kani contract harnesses for /repo/parquet/src/file/metadata/footer_tail.rs (child module: sees private items via super::)
+use super::*;
+#[path = "/verif/kani/support/spec.rs"]
+mod spec;
+use spec::*;
+
+// Contract (C08, C18): for every 8-byte tail, FooterTail::try_new returns Ok exactly when bytes 4..8 are
+// the magic "PAR1" or "PARE" (a file cut anywhere else, or garbage, is rejected — never a panic); on Ok
+// metadata_length() is the little-endian u32 in bytes 0..4 (no truncation or sign issue) and
+// is_encrypted_footer() <=> the magic is "PARE". TryFrom<[u8; 8]> agrees with try_new.
+// Stub: alloc::fmt::format (error text is not part of the contract).
+// @unit name=footer_tail_try_new props=C08,C18 kind=complete fns=FooterTail::try_new,FooterTail::metadata_length,FooterTail::is_encrypted_footer,TryFrom<[u8;8]>::try_from
+#[kani::proof]
+#[kani::stub(alloc::fmt::format, stub_format)]
+fn footer_tail_try_new() {
+    let b: [u8; 8] = kani::any();
+    let par1 = b[4] == 0x50 && b[5] == 0x41 && b[6] == 0x52 && b[7] == 0x31;
+    let pare = b[4] == 0x50 && b[5] == 0x41 && b[6] == 0x52 && b[7] == 0x45;
+    let r = FooterTail::try_new(&b);
+    assert!(r.is_ok() == (par1 || pare));
+    if let Ok(t) = &r {
+        let want = (b[0] as usize) | (b[1] as usize) << 8 | (b[2] as usize) << 16 | (b[3] as usize) << 24;
+        assert!(t.metadata_length() == want);
+        assert!(t.is_encrypted_footer() == pare);
+        let t2 = FooterTail::try_from(b);
+        assert!(t2.is_ok() && t2.as_ref().unwrap() == t);
+        std::mem::forget(t2);
+    }
+    kani::cover!(par1 && b[3] == 0xff);
+    kani::cover!(pare);
+    kani::cover!(r.is_err() && b[4] == 0x50 && b[5] == 0x41 && b[6] == 0x52);
+    std::mem::forget(r);
+}
+
+// Contract (C08, C18): TryFrom<&[u8]> accepts exactly the 8-byte slices that try_new accepts: any other
+// length (a truncated tail) is an error, never a panic.
+// @unit name=footer_tail_try_from_slice props=C08,C18 kind=bounded bound=slice<=12_bytes fns=TryFrom<&[u8]>::try_from
+#[kani::proof]
+#[kani::stub(alloc::fmt::format, stub_format)]
+fn footer_tail_try_from_slice() {
+    let a: [u8; 12] = kani::any();
+    let n: usize = kani::any();
+    kani::assume(n <= 12);
+    let r = FooterTail::try_from(&a[..n]);
+    let magic_ok = a[4] == 0x50 && a[5] == 0x41 && a[6] == 0x52 && (a[7] == 0x31 || a[7] == 0x45);
+    assert!(r.is_ok() == (n == 8 && magic_ok));
+    if let Ok(t) = &r {
+        assert!(t.metadata_length() == u32::from_le_bytes([a[0], a[1], a[2], a[3]]) as usize);
+        assert!(t.is_encrypted_footer() == (a[7] == 0x45));
+    }
+    kani::cover!(r.is_ok());
+    kani::cover!(r.is_err() && n == 7 && magic_ok);
+    kani::cover!(r.is_err() && n == 9 && magic_ok);
+    std::mem::forget(r);
+}
